@@ -646,7 +646,7 @@ theorem cert_signed_independent (c : CryptoOps) (ct : Cert) (sig' : Bytes) (hl :
   certSigned_independent c ct sig' hl
 
 /-- `parse (export cert) = cert` for every certificate with one key and one signature (every permission byte, permission data
-    up to 12 and UUID up to 16 bytes - returned zero-extended, which is why SPSDK's own `==` fails: finding C06-cert-eq-padding -,
+    up to 12 and UUID up to 16 bytes - returned zero-extended; `AhabCertificate.__eq__` compares them padded since a117167 -,
     every key whose algorithm tags are in the version-2 enumerations, any trailing bytes) -/
 theorem cert_roundtrip (c : CryptoOps) (hc : CryptoLaws c) (ct : Cert) (b rest : Bytes) (hwf : CertWF ct)
     (h : encodeCert c ct = .ok b) :
@@ -655,10 +655,12 @@ theorem cert_roundtrip (c : CryptoOps) (hc : CryptoLaws c) (ct : Cert) (b rest :
       parseCert (b ++ rest) = some (expectedCert c ct rec b.length so) :=
   cert_roundtrip' c hc ct b rest hwf h
 
-/-- the parser refuses a permission byte whose complement field does not match (the two fields cannot be changed independently) -/
+/-- what the parser checks: a permission byte whose complement field does not match is refused (the two fields cannot be changed
+    independently), and so is a declared length that is not signature offset + signature container (commit adb6379; the
+    comparison used to be dead code for single-signature certificates) -/
 theorem cert_perm_complement_checked (b : Bytes) (p : PCert) (h : parseCert b = some p) :
     ∃ inv perm, unpackInts certIntsA b = some [AhabConsts.certificateVersion, p.length, AhabConsts.certificateTag, p.sigOff, inv, perm] ∧
-      inv = 255 - perm % 256 ∧ p.perms = perm := by
+      inv = 255 - perm % 256 ∧ p.perms = perm ∧ p.length = p.sigOff + signatureLen p.signature := by
   unfold parseCert at h
   split at h
   · cases h
@@ -681,8 +683,11 @@ theorem cert_perm_complement_checked (b : Bytes) (p : PCert) (h : parseCert b = 
     · cases h
     split at h
     · cases h
+    split at h
+    · cases h
+    rename_i hlen
     cases h
-    refine ⟨inv, perm, ?_, Decidable.not_not.1 hc2, rfl⟩
+    refine ⟨inv, perm, ?_, Decidable.not_not.1 hc2, rfl, Decidable.not_not.1 hlen⟩
     rw [hu1, hc1.1, hc1.2.1]
   · cases h
 
